@@ -119,6 +119,13 @@ def rule_A2(ctx):
                 r.info.append("allowed %s %s x%d: %s" % (f["path"], kind, len(wheres), al[f["path"]][kind]["reason"]))
     r.floor("push_instruction call sites in compiler::build", ni, 5)
     r.floor("InstructionMetadata push sites in compiler::build", nm, 5)
+    # the record list changes only by the paired push: a resize / extend / truncate / insert / pop on it puts it out of step
+    # with the instructions this build emitted (e.g. padding it to the data object's TOTAL instruction count)
+    for f in sorted(fns, key=lambda f: f["path"]):
+        for n_ in walk(f["hir"]):
+            if n_.get("k") == "MethodCall" and "InstructionMetadata" in (n_.get("recv_ty") or "") and "Vec<" in (n_.get("recv_ty") or "") and n_.get("m") in (
+                    "resize", "resize_with", "extend", "extend_from_slice", "truncate", "insert", "pop", "remove", "clear", "append", "drain", "retain", "swap_remove", "dedup", "split_off"):
+                r.finding(f["path"].split("::{closure")[0], "metadata-list-mutated:%s" % n_["m"], loc(n_), "the instruction metadata list is changed by `%s` at %s instead of the push that accompanies each emitted instruction: its length no longer equals the number of instructions this build emitted (built into an object that already holds instructions it gets extra records)" % (n_["m"], loc(n_)))
     # controls
     cf = [f for f in F.fns_in("gfixture::a2::") if f["kind"] != "Closure"]
     cpeers = _emitters(cf)
